@@ -42,11 +42,24 @@
                     schedule are unchanged; the result is follow s' t
    C05_fix_least_gen / C05_fix_least   the fixed type is below every
                     instantiation of t within the bounds and is one of them
-   C05_fix_total    fuel > xdepth s t + 2 suffices, and fix cannot fail *)
+   C05_fix_total    fuel > xdepth s t + 2 suffices, and fix cannot fail
+
+   C17 (termination, fragment P = no constraints; Infer/TermP.v):
+   C17_term_P_unify  unify (subtype mode, no skip flags) returns a value or a
+                    typing error - never EFuel, never a crash - whenever
+                    fuel > unify_bound s a b
+                      = m + |vars s| * m + 7,  m = mdep s a b = max 1 (deepest
+                        binding of s, depth a, depth b)
+   C17_term_P_apply  the same for Type.apply with apply_bound s f x
+                      = m + (|vars s| + 2) * m + 7
+   C17_term_P_fix    = C05_fix_total
+   Not covered: TypeSchema.instance (in fragment P it is allocation followed by
+   fix_ty, whose bound is C05_fix_total in the store after allocation) and
+   everything with constraints (check_constraints / fulfill / minimize). *)
 From Coq Require Import List Arith Bool Lia.
 Import ListNotations.
 From TF Require Import Base.Hier Base.Ty Sub.SubSpec Infer.Store Infer.Engine Infer.Run
-  Infer.Inv Infer.Sound Infer.FixLeast.
+  Infer.Inv Infer.Sound Infer.FixLeast Infer.TermP.
 
 (* ---------- 1. what fix changes ---------- *)
 
@@ -65,10 +78,7 @@ Theorem C05_fix_spec : forall H, wf_hier H -> forall fuel pl t s r s',
    (forall q v o, occ H s pl t q v -> pbound q (cell_of s v) = Some o ->
                   c_bound (cell_of s' v) <> None)) /\
   r = follow s' t.
-Proof.
-  intros H W fuel pl t s r s' I C Tt E.
-  destruct (fix_spec_all H W fuel pl t s r s' I C Tt E) as [[B S Cm] Er]. auto.
-Qed.
+Proof. exact fix_spec_x. Qed.
 Print Assumptions C05_fix_spec.
 
 Theorem C05_fix_binds : forall H, wf_hier H -> forall fuel t s r s',
@@ -133,6 +143,44 @@ Theorem C05_fix_total : forall H, wf_hier H -> forall fuel pl t s,
   exists r s', fix_ty H fuel pl t s = MOk r s'.
 Proof. exact fix_total. Qed.
 Print Assumptions C05_fix_total.
+
+Theorem C17_term_P_fix : forall H, wf_hier H -> forall fuel pl t s,
+  J H s -> inv s -> tg H (length (vars s)) t -> xdepth s t + 2 < fuel ->
+  forall s', fix_ty H fuel pl t s <> MEr EFuel s'.
+Proof. exact fix_term. Qed.
+Print Assumptions C17_term_P_fix.
+
+(* ---------- 4. termination of unify and apply (C17, fragment P) ---------- *)
+
+Theorem C17_term_P_unify : forall H, wf_hier H -> forall fuel a b s,
+  J H s -> inv s -> tg H (length (vars s)) a -> tg H (length (vars s)) b ->
+  unify_bound s a b < fuel ->
+  (exists s', unify H fuel true false false a b s = MOk tt s') \/
+  (exists e s', unify H fuel true false false a b s = MEr e s' /\ e <> EFuel /\
+                forall site, e <> ECrash site).
+Proof. exact unify_term. Qed.
+Print Assumptions C17_term_P_unify.
+
+Theorem C17_term_P_apply : forall H, wf_hier H -> forall fuel f x fixb s,
+  J H s -> inv s -> tg H (length (vars s)) f -> tg H (length (vars s)) x ->
+  apply_bound s f x < fuel ->
+  forall s', apply H fuel f x fixb s <> MEr EFuel s'.
+Proof. exact apply_term. Qed.
+Print Assumptions C17_term_P_apply.
+
+(* the bounds are explicit functions of the store and the arguments *)
+Example unify_bound_def : forall s a b,
+  unify_bound s a b =
+    Nat.max 1 (Nat.max (mdepth s) (Nat.max (depth a) (depth b)))
+    + length (vars s) * Nat.max 1 (Nat.max (mdepth s) (Nat.max (depth a) (depth b))) + 7.
+Proof. reflexivity. Qed.
+Example apply_bound_def : forall s f x,
+  apply_bound s f x =
+    Nat.max 1 (Nat.max (mdepth s) (Nat.max (depth f) (depth x)))
+    + (length (vars s) + 2) * Nat.max 1 (Nat.max (mdepth s) (Nat.max (depth f) (depth x))) + 7.
+Proof. reflexivity. Qed.
+Example xdepth_def : forall s t, xdepth s t = depth t + length (vars s) * mdepth s.
+Proof. reflexivity. Qed.
 
 (* ---------- non-vacuity ---------- *)
 
@@ -232,3 +280,21 @@ Example ex_not_single :
   fix_ty exH 5 true (O Function [V 0; V 0]) s =
     MOk (O Function [V 0; V 0]) (mkStore [mkCell false (Some (O 5 [])) (Some 7) (Some 5) 0] [[]] [] []).
 Proof. vm_compute. reflexivity. Qed.
+
+(* termination bounds on the instance: F(y) <= F(A) makes A the upper bound of y;
+   the bound 13 is not tight (4 units suffice here, 3 do not) *)
+Example ex_unify_term :
+  unify_bound ex_s (O 9 [V 1]) (O 9 [O 5 []]) = 13 /\
+  unify exH 14 true false false (O 9 [V 1]) (O 9 [O 5 []]) ex_s =
+    MOk tt (mkStore [mkCell false None None (Some 6) 0; mkCell false None (Some 7) (Some 5) 1]
+                    [[]; []] [] []) /\
+  (exists s', unify exH 3 true false false (O 9 [V 1]) (O 9 [O 5 []]) ex_s = MEr EFuel s').
+Proof. split; [|split; [|eexists]]; vm_compute; reflexivity. Qed.
+
+(* applying x ** F(y) to C: x >= C, and the result F(y) is fixed to F(C) *)
+Example ex_apply_term :
+  apply_bound ex_s ex_t (O 7 []) = 17 /\
+  (exists s', apply exH 18 ex_t (O 7 []) true ex_s = MOk (O 9 [V 1]) s' /\
+              cell_of s' 0 = mkCell false None (Some 7) (Some 6) 0 /\
+              cell_of s' 1 = mkCell false (Some (O 7 [])) (Some 7) None 1).
+Proof. split; [|eexists; split; [|split]]; vm_compute; reflexivity. Qed.
